@@ -845,7 +845,7 @@ Section Facts.
     destruct (orc_trace _ _ _ _ _ _ _ H) as (Ha & Hb).
     destruct (hc_after_orc fl host port answers fs0 p0 r0 s' r H) as (_ & _ & _ & _ & _ & _ & _ & _ & [(-> & _)|(_ & -> & _)] & _).
     - auto.
-    - split; [apply Forall_app; split; [assumption|repeat constructor; simpl; auto]|].
+    - split; [apply Forall_app; split; [assumption|constructor; [simpl; right; reflexivity|constructor]]|].
       unfold count_up_wraps in *. rewrite filter_app, app_length. simpl. lia.
   Qed.
 
@@ -868,5 +868,170 @@ Section Facts.
     wc_cafile c = ca_file fl.
   Proof.
     unfold policy_call. simpl. destruct (insecure_tls_interception fl); simpl; repeat split; auto; try discriminate.
+  Qed.
+
+  (* ================================================================ opt-out / interception off: opaque tunnel *)
+  Definition tls_wire (w : list (bool * bytes)) : Prop := Forall (fun x => fst x = true) w.
+
+  (* an event at which interception is (still) declined: flags incomplete or some plugin answers False *)
+  Definition declined (fl : flags) (ev : event) : Prop :=
+    forall a, event_answers ev = Some a -> tls_intercept_enabled_ fl a = false.
+  Definition engaged_at (fl : flags) (ev : event) : Prop :=
+    forall a, event_answers ev = Some a -> tls_intercept_enabled_ fl a = true.
+
+  Definition tunnel_inv (cs us : list bytes) (h : hstate PS RS) : Prop :=
+    let s := ps h in
+    mode h = Running /\ cl s = ClPlain /\ up s = UpPlain /\
+    plain_wire (cl_wire s) /\ plain_wire (up_wire s) /\
+    map snd (up_wire s) ++ up_buf s = cs /\
+    map snd (cl_wire s) ++ cl_buf s = K200 :: us.
+
+  Lemma plain_wire_app_tag w l : plain_wire w -> plain_wire (w ++ map (fun d : bytes => (false, d)) l).
+  Proof.
+    intros Hw. apply Forall_app. split; [assumption|]. induction l; constructor; auto.
+  Qed.
+  Lemma tls_wire_app_tag w l : tls_wire w -> tls_wire (w ++ map (fun d : bytes => (true, d)) l).
+  Proof.
+    intros Hw. apply Forall_app. split; [assumption|]. induction l; constructor; auto.
+  Qed.
+
+  Lemma tunnel_step fl cs us h ev :
+    tunnel_inv cs us h -> declined fl ev ->
+    tunnel_inv (cs ++ client_chunks [ev]) (us ++ upstream_chunks [ev]) (step_ fl h ev).
+  Proof.
+    intros (Hm & Hcl & Hup & Hpc & Hpu & Hcs & Hus) Hdec.
+    unfold step. rewrite Hm.
+    destruct ev as [a raw|a raw| |]; simpl.
+    - (* client data: queued for the origin as it is *)
+      unfold on_client_data. rewrite Hup, (Hdec a eq_refl).
+      unfold tunnel_inv, with_ps, set_up_buf. simpl. rewrite !app_nil_r.
+      repeat split; auto. rewrite app_assoc. congruence.
+    - unfold read_from_descriptors. rewrite Hup. simpl. rewrite (Hdec a eq_refl).
+      unfold tunnel_inv, with_ps, set_cl_buf. simpl. rewrite !app_nil_r.
+      repeat split; auto. rewrite app_assoc, Hus. reflexivity.
+    - rewrite Hcl. destruct (cl_buf (ps h)) as [|b rest] eqn:Hbuf.
+      + unfold tunnel_inv. rewrite !app_nil_r, Hbuf. repeat split; auto.
+      + unfold tunnel_inv, with_ps, mbind, set_cl_wire, set_cl_buf. simpl. rewrite !app_nil_r.
+        repeat split; auto.
+        * change ((false, b) :: map (fun d : bytes => (false, d)) rest) with (map (fun d : bytes => (false, d)) (b :: rest)).
+          now apply plain_wire_app_tag.
+        * rewrite map_app. simpl. rewrite map_snd_tag. assumption.
+    - rewrite Hup. simpl.
+      unfold tunnel_inv, with_ps, mbind, set_up_wire, set_up_buf. simpl. rewrite !app_nil_r.
+      repeat split; auto.
+      + now apply plain_wire_app_tag.
+      + rewrite map_app, map_snd_tag. assumption.
+  Qed.
+
+  Lemma chunks_cons ev evs :
+    client_chunks (ev :: evs) = client_chunks [ev] ++ client_chunks evs /\
+    upstream_chunks (ev :: evs) = upstream_chunks [ev] ++ upstream_chunks evs.
+  Proof. unfold client_chunks, upstream_chunks. simpl. rewrite !app_nil_r. auto. Qed.
+
+  Lemma tunnel_fold fl evs cs us h :
+    tunnel_inv cs us h -> Forall (declined fl) evs ->
+    tunnel_inv (cs ++ client_chunks evs) (us ++ upstream_chunks evs) (fold_left (step_ fl) evs h).
+  Proof.
+    revert cs us h. induction evs as [|ev t IH]; intros cs us h Hinv Hall; cbn [fold_left].
+    - unfold client_chunks, upstream_chunks. simpl. now rewrite !app_nil_r.
+    - inversion Hall as [|? ? Hev Ht]; subst.
+      destruct (chunks_cons ev t) as (-> & ->). rewrite !app_assoc.
+      apply IH; [|assumption]. now apply tunnel_step.
+  Qed.
+
+  (* When interception is off (a CA flag missing) or a plugin opts out - at the CONNECT and at every later
+     call - the connection is an opaque tunnel: no TLS wrap, no certificate generation, every client chunk is
+     queued for the origin and every origin chunk for the client, unmodified and in order, in plaintext
+     (i.e. the bytes are the client's own TLS records, untouched). *)
+  Theorem optout_is_tunnel fl host h port answers fs0 p0 r0 evs :
+    text_ host = Ok h -> host <> [] -> port <> 0 -> connect h port = None ->
+    tls_intercept_enabled_ fl answers = false ->
+    Forall (declined fl) evs ->
+    let hf := run_ fl host port answers fs0 p0 r0 evs in
+    tr (ps hf) = [EConnect h port; EClientQueue K200] /\ fs (ps hf) = fs0 /\
+    mode hf = Running /\ cl (ps hf) = ClPlain /\ up (ps hf) = UpPlain /\
+    plain_wire (cl_wire (ps hf)) /\ plain_wire (up_wire (ps hf)) /\
+    map snd (up_wire (ps hf)) ++ up_buf (ps hf) = client_chunks evs /\
+    map snd (cl_wire (ps hf)) ++ cl_buf (ps hf) = K200 :: upstream_chunks evs.
+  Proof.
+    intros Htext Hhost Hport Hconn Hoff Hall. cbv zeta. unfold run.
+    set (h1 := handle_connect_ fl host port answers (init_h fs0 p0 r0)).
+    assert (Hh1 : h1 = mkH (connected_pst fs0 h port) Running None p0 r0).
+    { unfold h1, handle_connect. simpl ps.
+      rewrite (orc_connected fl host h port answers fs0 Htext Hhost Hport Hconn), Hoff. reflexivity. }
+    assert (Hinv : tunnel_inv [] [] h1).
+    { rewrite Hh1. unfold tunnel_inv. simpl. repeat split; auto; constructor. }
+    destruct (fold_fixed fl evs h1) as (Htr & Hfs & _ & _).
+    pose proof (tunnel_fold fl evs [] [] h1 Hinv Hall) as (Hm & Hcl & Hup & Hpc & Hpu & Hcs & Hus).
+    rewrite Htr, Hfs. split; [rewrite Hh1; reflexivity|]. split; [rewrite Hh1; reflexivity|].
+    rewrite !app_nil_l in *. repeat split; auto.
+  Qed.
+
+  (* ================================================================ an established interception *)
+  Definition established (h : hstate PS RS) : Prop :=
+    mode h = Running /\ cl (ps h) = ClTls /\ up (ps h) = UpTls.
+
+  Lemma intercepted_fold fl evs : forall h outs,
+    established h -> Forall (engaged_at fl) evs ->
+    pipeline_outs pipeline_step (pipe h) (client_chunks evs) = Some outs ->
+    responses_ok response_step (resp h) (upstream_chunks evs) = true ->
+    let hf := fold_left (step_ fl) evs h in
+    established hf /\
+    exists wc wu,
+      cl_wire (ps hf) = cl_wire (ps h) ++ wc /\ tls_wire wc /\
+      up_wire (ps hf) = up_wire (ps h) ++ wu /\ tls_wire wu /\
+      map snd wu ++ up_buf (ps hf) = up_buf (ps h) ++ outs /\
+      map snd wc ++ cl_buf (ps hf) = cl_buf (ps h) ++ upstream_chunks evs.
+  Proof.
+    induction evs as [|ev t IH]; intros h outs Hest Hall Hpipe Hresp; cbn [fold_left].
+    - unfold client_chunks in Hpipe. simpl in Hpipe. inv Hpipe.
+      split; [assumption|]. exists [], []. unfold upstream_chunks. simpl. rewrite !app_nil_r.
+      repeat split; auto; constructor.
+    - inversion Hall as [|? ? Hev Ht]; subst.
+      destruct (chunks_cons ev t) as (Hc & Hu). rewrite Hc in Hpipe. rewrite Hu in Hresp.
+      destruct Hest as (Hm & Hcl & Hup).
+      assert (Hstep : exists outs1 outs2 wc1 wu1,
+                 outs = outs1 ++ outs2 /\
+                 established (step_ fl h ev) /\
+                 pipeline_outs pipeline_step (pipe (step_ fl h ev)) (client_chunks t) = Some outs2 /\
+                 responses_ok response_step (resp (step_ fl h ev)) (upstream_chunks t) = true /\
+                 cl_wire (ps (step_ fl h ev)) = cl_wire (ps h) ++ wc1 /\ tls_wire wc1 /\
+                 up_wire (ps (step_ fl h ev)) = up_wire (ps h) ++ wu1 /\ tls_wire wu1 /\
+                 map snd wu1 ++ up_buf (ps (step_ fl h ev)) = up_buf (ps h) ++ outs1 /\
+                 map snd wc1 ++ cl_buf (ps (step_ fl h ev)) = cl_buf (ps h) ++ upstream_chunks [ev]).
+      { unfold step. rewrite Hm.
+        destruct ev as [a raw|a raw| |]; simpl in *.
+        - unfold on_client_data. rewrite Hup, (Hev a eq_refl).
+          unfold client_chunks in Hpipe. simpl in Hpipe.
+          destruct (pipeline_step (pipe h) raw) as [[p' o1]|] eqn:Hps; [|discriminate].
+          destruct (pipeline_outs pipeline_step p' (flat_map _ t)) as [o2|] eqn:Hrest; [|discriminate].
+          simpl in Hpipe. inv Hpipe.
+          exists o1, o2, [], []. unfold established, upstream_chunks. simpl. rewrite !app_nil_r.
+          repeat split; auto; constructor.
+        - unfold read_from_descriptors. rewrite Hup. simpl. rewrite (Hev a eq_refl).
+          unfold upstream_chunks in Hresp. simpl in Hresp.
+          destruct (response_step (resp h) raw) as [r'|] eqn:Hrs; [|discriminate].
+          exists [], outs, [], []. unfold established, upstream_chunks. simpl. rewrite !app_nil_r.
+          repeat split; auto; constructor.
+        - rewrite Hcl. destruct (cl_buf (ps h)) as [|b rest] eqn:Hbuf.
+          + exists [], outs, [], []. unfold established, upstream_chunks. simpl. rewrite !app_nil_r, ?Hbuf.
+            repeat split; auto; constructor.
+          + exists [], outs, (map (fun d : bytes => (true, d)) (b :: rest)), [].
+            unfold established, upstream_chunks, with_ps, mbind, set_cl_wire, set_cl_buf. simpl.
+            rewrite !app_nil_r, map_snd_tag. repeat split; auto; try constructor; auto.
+            clear. induction rest; constructor; auto.
+        - rewrite Hup. simpl.
+          exists [], outs, [], (map (fun d : bytes => (true, d)) (up_buf (ps h))).
+          unfold established, upstream_chunks, with_ps, mbind, set_up_wire, set_up_buf. simpl.
+          rewrite !app_nil_r, map_snd_tag. repeat split; auto; try constructor.
+          clear. induction (up_buf (ps h)); constructor; auto. }
+      destruct Hstep as (o1 & o2 & wc1 & wu1 & -> & Hest' & Hpipe' & Hresp' & Hcw & Htc & Huw & Htu & Hub & Hcb).
+      destruct (IH _ _ Hest' Ht Hpipe' Hresp') as (Hest'' & wc2 & wu2 & Hcw2 & Htc2 & Huw2 & Htu2 & Hub2 & Hcb2).
+      split; [assumption|]. exists (wc1 ++ wc2), (wu1 ++ wu2).
+      rewrite Hcw2, Hcw, Huw2, Huw, <- !app_assoc. repeat split; auto.
+      + apply Forall_app; auto.
+      + apply Forall_app; auto.
+      + rewrite map_app, <- app_assoc, Hub2, app_assoc, Hub. now rewrite <- !app_assoc.
+      + rewrite map_app, <- app_assoc, Hcb2, app_assoc, Hcb, Hu. now rewrite <- !app_assoc.
   Qed.
 End Facts.
